@@ -127,14 +127,14 @@ func (m *Model) RunErrLine(s *Sink, rule string) {
 		}
 	}
 	// parser.newError: every call passes a line derived from a token's ErrorLine()
-	pne := m.Method("parser", "Parser", "newError")
+	pne := m.parserNewError()
 	if pne != nil {
 		if node := m.CG.Nodes[pne]; node != nil {
 			n := 0
 			for _, e := range node.In {
 				c, ok := e.Site.(*ssa.Call)
-				if !ok {
-					continue
+				if !ok || isSynthetic(e.Caller.Func) {
+					continue // promoted-method wrappers forward their arguments
 				}
 				n++
 				key := fmt.Sprintf("%s|parser error line #%d", fnKey(e.Caller.Func), n)
@@ -155,8 +155,18 @@ func (m *Model) RunErrLine(s *Sink, rule string) {
 		for _, b := range pne.Blocks {
 			for _, in := range b.Instrs {
 				if c, ok := in.(*ssa.Call); ok && c.Call.StaticCallee() != nil && canonFnName(c.Call.StaticCallee()) == "New" && len(c.Call.Args) > 1 {
-					if fieldPathOf(c.Call.Args[1]) == ".filepath" && c.Call.Args[0] == ssa.Value(pne.Params[1]) {
+					if c.Call.Args[0] != ssa.Value(pne.Params[1]) {
+						continue
+					}
+					if fieldPathOf(c.Call.Args[1]) == ".filepath" {
 						okPath = true
+						continue
+					}
+					// a field under another name (or of an embedded helper): it must only ever hold parser.New's path argument
+					if ld, isLd := c.Call.Args[1].(*ssa.UnOp); isLd {
+						if fa, isFA := ld.X.(*ssa.FieldAddr); isFA {
+							okPath = m.fieldHoldsOnly(fa, m.PkgFunc("parser", "New"))
+						}
 					}
 				}
 			}
@@ -382,4 +392,38 @@ func (m *Model) returnedAt(fn *ssa.Function, i int) []ssa.Value {
 		out = append(out, v)
 	}
 	return out
+}
+
+// fieldHoldsOnly: every store to the field (same struct type, same index) anywhere in the module stores a value that,
+// resolved through helper parameters, is a parameter of fn.
+func (m *Model) fieldHoldsOnly(fa *ssa.FieldAddr, fn *ssa.Function) bool {
+	if fn == nil {
+		return false
+	}
+	n := 0
+	for _, f := range m.ModFns {
+		if f.Blocks == nil {
+			continue
+		}
+		for _, b := range f.Blocks {
+			for _, in := range b.Instrs {
+				st, ok := in.(*ssa.Store)
+				if !ok {
+					continue
+				}
+				fa2, ok := st.Addr.(*ssa.FieldAddr)
+				if !ok || fa2.Field != fa.Field || derefTypeString(fa2.X.Type()) != derefTypeString(fa.X.Type()) {
+					continue
+				}
+				n++
+				for _, r := range m.resolveUp(st.Val, fn, 0) {
+					p, isP := r.(*ssa.Parameter)
+					if !isP || p.Parent() != fn {
+						return false
+					}
+				}
+			}
+		}
+	}
+	return n > 0
 }
